@@ -608,6 +608,31 @@ fn quals_step(q: &mut Qualifiers, a: &[&str]) -> Result<String, String> {
                 }
             }
             bad = bad || it.next().is_some() || it.next_back().is_some();
+            // the iterator adaptors built on nth / nth_back / fold agree with plain iteration
+            let all: Vec<(String, String)> = q.iter().map(|(k, v)| (k.as_str().to_string(), v.to_string())).collect();
+            let n = all.len();
+            for i in 0..=n + 1 {
+                let want_f = all.get(i).cloned();
+                let want_b = if i < n { all.get(n - 1 - i).cloned() } else { None };
+                let f = q.iter().nth(i).map(|(k, v)| (k.as_str().to_string(), v.to_string()));
+                let b = q.iter().nth_back(i).map(|(k, v)| (k.as_str().to_string(), v.to_string()));
+                let rs = q.iter().rev().skip(i).next().map(|(k, v)| (k.as_str().to_string(), v.to_string()));
+                let fm = q.iter_mut().nth(i).map(|(k, v)| (k.as_str().to_string(), v.to_string()));
+                let bm = q.iter_mut().nth_back(i).map(|(k, v)| (k.as_str().to_string(), v.to_string()));
+                let rsm = q.iter_mut().rev().skip(i).next().map(|(k, v)| (k.as_str().to_string(), v.to_string()));
+                bad = bad || f != want_f || b != want_b || rs != want_b || fm != want_f || bm != want_b || rsm != want_b;
+            }
+            let stepped: Vec<String> = q.iter().step_by(2).map(|(k, _)| k.as_str().to_string()).collect();
+            let stepped_ref: Vec<String> = all.iter().step_by(2).map(|(k, _)| k.clone()).collect();
+            let stepped_back: Vec<String> = q.iter_mut().rev().step_by(2).map(|(k, _)| k.as_str().to_string()).collect();
+            let stepped_back_ref: Vec<String> = all.iter().rev().step_by(2).map(|(k, _)| k.clone()).collect();
+            bad = bad
+                || stepped != stepped_ref
+                || stepped_back != stepped_back_ref
+                || q.iter().count() != n
+                || q.iter_mut().count() != n
+                || q.iter().last().map(|(k, _)| k.as_str().to_string()) != all.last().map(|(k, _)| k.clone())
+                || q.iter_mut().last().map(|(k, _)| k.as_str().to_string()) != all.last().map(|(k, _)| k.clone());
             // the same through IterMut
             let mut keys_mut = Vec::new();
             {
@@ -1554,6 +1579,34 @@ fn op_serde(rest: &[&str]) -> Result<String, String> {
                     Ok(p) => format!("OK:{}", show_parts_acc(&p)),
                     Err(e) => format!("ERR:serde:{}", h(&e.to_string())),
                 },
+                _ => "NA".to_string(),
+            })
+        },
+        // a long string value through JSON and through the borrowed / owned string deserializers: summary only
+        "delen" => {
+            use serde::de::value::{BorrowedStrDeserializer, Error as VErr, StringDeserializer};
+            use serde::Deserialize;
+            let s = unh(arg(rest, 2)?)?;
+            let json = serde_json::to_string(&s).map_err(|e| e.to_string())?;
+            fn go<T>(s: &str, json: &str) -> String
+            where
+                T: PurlShape + Clone + FromStr + PartialEq,
+                <T as PurlShape>::Error: From<<T as FromStr>::Err> + std::fmt::Display,
+                for<'de> GenericPurl<T>: Deserialize<'de>,
+            {
+                let a = serde_json::from_str::<GenericPurl<T>>(json).ok();
+                let b = GenericPurl::<T>::deserialize(BorrowedStrDeserializer::<VErr>::new(s)).ok();
+                let c = GenericPurl::<T>::deserialize(StringDeserializer::<VErr>::new(s.to_string())).ok();
+                match (&a, &b, &c) {
+                    (Some(x), Some(y), Some(z)) if x == y && y == z => format!("OK len={}", s.len()),
+                    (None, None, None) => "ERR:serde".to_string(),
+                    _ => format!("MIXED json={} borrowed={} owned={}", tf(a.is_some()), tf(b.is_some()), tf(c.is_some())),
+                }
+            }
+            Ok(match shape {
+                "S" => go::<String>(&s, &json),
+                #[cfg(feature = "package-type")]
+                "P" => go::<PackageType>(&s, &json),
                 _ => "NA".to_string(),
             })
         },
